@@ -838,8 +838,19 @@ def metamorphic(ctx, M, prepared, tables):
         # one identifier -> one special spelling (soft keywords, one-letter tokens, PROPERTY-only keywords, near-keywords)
         specials = ONE_LETTER + SOFT + PROPERTY_ONLY + NEAR
         picks = user if (thorough or len(user) <= 6) else rng.sample(user, 6)
-        for x in picks:
-            for sp in (specials if thorough else rng.sample(ONE_LETTER, 2) + rng.sample(SOFT, 2) + rng.sample(PROPERTY_ONLY, 2) + rng.sample(NEAR, 2)):
+        # a declared type name is the one kind of identifier the lexer itself treats differently (is_type(): T_TYPENAME, and the
+        # literal one-letter rules ask it too): every typedef of the model gets every one-letter / soft-keyword spelling in both
+        # tiers, so that each use of the type -- whatever token precedes it -- is lexed once under each of these rules
+        plan = [(x, specials if thorough else rng.sample(ONE_LETTER, 2) + rng.sample(SOFT, 2) + rng.sample(PROPERTY_ONLY, 2) + rng.sample(NEAR, 2))
+                for x in picks]
+        if not thorough:
+            plan += [(x, ONE_LETTER + SOFT) for x in user if x in typedefs]
+        planned = set()
+        for x, sps in plan:
+            for sp in sps:
+                if (x, sp) in planned:
+                    continue
+                planned.add((x, sp))
                 if sp in occ or sp == x:
                     continue
                 rho = {x: sp}
